@@ -470,7 +470,41 @@ def build() -> Check:
     ck.floor("mixed_replay_paths", n_mixed, 16)
     ck.ob("R1.replay-item-carries-own-outcome", fn_construct(f_replay), not badm, "; ".join(badm[:2]) or f"{n_mixed} paths over 16 status pairs")
     _publication_order(ck, prog)
+    _round_h3_rules(ck, prog)
     return ck
+
+
+def _round_h3_rules(ck, prog):
+    """Two structural rules from review round h3 (h3_C09 #2, #3)."""
+    cex = prog.cls("concurrency.executor", "ConcurrentExecutor")
+    ex = cex.methods["execute"]
+    # R5 a suspend verdict recorded by a done-callback may be overtaken by a decision: a finishing branch publishes its state before it is counted, a sibling
+    # that suspends in between sees "policy undecided" and "nothing running" and records a suspension. execute() has to look at the policy again before it
+    # honours the suspension - otherwise parallel([waits_for_callback, quick], min_successful=1) answers PENDING although its policy is decided.
+    raises = [r for r in ast.walk(ex.node) if isinstance(r, ast.Raise) and r.exc is not None and "_suspend_exception" in ast.unparse(r.exc)]
+    ck.floor("suspension_raises_in_execute", len(raises), 1)
+    par = {}
+    for n in ast.walk(ex.node):
+        for c in ast.iter_child_nodes(n):
+            par[id(c)] = n
+    for r in raises:
+        cur, guarded = par.get(id(r)), False
+        while cur is not None and not guarded:
+            if isinstance(cur, ast.If) and any(r is x for b in cur.body for x in ast.walk(b)):
+                t = ast.unparse(cur.test)
+                guarded = ("should_complete" in t or "is_complete" in t or "should_continue" in t) and "not " in t
+            cur = par.get(id(cur))
+        ck.ob("R5.decided-policy-overrules-a-recorded-suspension", fn_construct(ex), guarded,
+              "execute() raises the suspension a done-callback recorded without looking at the completion policy again: a branch that finished while a sibling "
+              "was recording its suspension (state published, not yet counted) has decided the operation, which nevertheless answers PENDING", where=f"line {r.lineno}")
+    # R2 "returns exactly when its completion policy is decided": in a re-invocation part of the decision is already on record - branches an earlier
+    # invocation finished. They are counted only when a pool worker gets round to traversing them again (queue order, max_concurrency), so a decided call
+    # keeps waiting behind a running branch, and a finished branch can be delivered as STARTED. Necessary: execute() consults the records before it submits.
+    looks = any(isinstance(n, ast.Attribute) and n.attr in ("get_checkpoint_result", "operations") for n in ast.walk(ex.node))
+    ck.ob("R2.recorded-branch-outcomes-are-counted-before-submission", fn_construct(ex), looks,
+          "execute() starts every invocation with fresh counters and never looks at the branch records: a branch recorded SUCCEEDED / FAILED by an earlier "
+          "invocation counts only once a pool worker re-traverses it (in queue order, under max_concurrency). With max_concurrency=1, min_successful=2, branch 2 "
+          "recorded and branch 0 succeeding now, the call is decided but waits for the worker that is inside branch 1 - for as long as that branch runs")
 
 
 def _publication_order(ck, prog):
